@@ -36,8 +36,12 @@ Clause(r, f) ==
     [] OTHER -> "ok"
 VARIABLES i, bad
 Init == i = 1 /\ bad = 0
+\* ring closure with or without the Z ordinate: the real parser must agree with ONE of the two readings throughout a parse
+ClauseAny(r) == LET c1 == Clause(r, Run(S0z(TRUE), r.toks)) IN
+                IF c1 = "ok" THEN "ok"
+                ELSE IF Clause(r, Run(S0z(FALSE), r.toks)) = "ok" THEN "ok" ELSE c1
 Next == /\ i <= Len(Recs)
-        /\ LET r == Recs[i]  f == Run(S0, r.toks)  c == Clause(r, f) IN
+        /\ LET r == Recs[i]  c == ClauseAny(r) IN
            /\ IF c = "ok" THEN TRUE
               ELSE PrintT(<<"VIOL", ToJson([i |-> i, sig |-> "wkt|" \o c, text |-> r.text])>>)
            /\ bad' = IF c = "ok" THEN bad ELSE bad + 1
